@@ -86,6 +86,28 @@ def _snapshot(obj, dom_space, Pq, pspace, full, need, fixed=()):
     return (need, ans.tolist(), vol)
 
 
+def tree_needs(obj, ast, path="root", depth=0):
+    """Declared needs of every node of a torchphysics domain object against the free variables of the matching
+    sub-expression (the clause holds for operands and inner nodes too, not only for the root)."""
+    bad = []
+    try:
+        got = sorted(obj.necessary_variables)
+    except Exception:
+        return bad
+    want = sorted(G.free_vars(ast))
+    if got != want:
+        bad.append((path, got, want))
+    if depth > 6:
+        return bad
+    k = ast["k"]
+    if k in ("union", "cut", "inter") and hasattr(obj, "domain_a") and hasattr(obj, "domain_b"):
+        bad += tree_needs(obj.domain_a, ast["a"], path + ".a", depth + 1)
+        bad += tree_needs(obj.domain_b, ast["b"], path + ".b", depth + 1)
+    elif k in ("transl", "rot") and hasattr(obj, "domain"):
+        bad += tree_needs(obj.domain, ast["d"], path + ".d", depth + 1)
+    return bad
+
+
 def run_c17(case):
     out, stats, log = [], {}, []
     dom = case["dom"]
@@ -114,6 +136,10 @@ def run_c17(case):
                 m = G.margin(dom, Pfull)
                 far = np.abs(m) > G.TOL_FAR
                 truth = m > 0
+            tb = tree_needs(D0, dom)
+            if tb:
+                out.append(viol("C17", "necessary-variables", "inner-node-declares-other-needs-than-its-free-variables", "",
+                                node=tb[0][0], got=tb[0][1], want=tb[0][2]))
             objs = [D0]
             fixeds = [frozenset()]
             asts = [dom]
